@@ -29,7 +29,7 @@ VIEWS_ONLY = {"DtypeSweep": ["eval", "adj"], "WrappedOptions": ["eval", "adj"], 
 # hand-made grids of which the quick tier takes a seeded share (the thorough tier takes them whole)
 QUICK_SHARE: dict = {}
 # quick tier: these classes are taken whole but with the forward map only (+ the adjoint of a seeded third)
-VIEWS_QUICK = {"DtypeSweep": ["eval"]}
+VIEWS_QUICK = {"DtypeSweep": ["eval"], "WrappedOptions": ["eval"]}
 
 # slugs of the `known:` findings of C06 that are currently recorded (set by c06.generate): grid configurations that are
 # exactly a recorded witness carry `known_id` and are left out while the finding is recorded (the corpus replays them)
